@@ -732,6 +732,34 @@ func (in *interpreter) toNative(fr *frame, v value, depth int) interface{} {
 				}
 			}
 		}
+		if tm, ok := x.v.(*Term); ok && in.path != nil && tm.Op != OpConst && tm.W > 1 && tm.Hi < 1<<62 && tm.Hi-tm.Lo <= 255 {
+			// a symbolic integer with a small range of values: format each value on its own path
+			if bt, ok := x.t.Underlying().(*types.Basic); ok && bt.Info()&types.IsInteger != 0 {
+				v := in.path.Concretize(tm)
+				switch bt.Kind() {
+				case types.Int:
+					return int(v)
+				case types.Int8:
+					return int8(v)
+				case types.Int16:
+					return int16(v)
+				case types.Int32:
+					return int32(v)
+				case types.Int64:
+					return int64(v)
+				case types.Uint:
+					return uint(v)
+				case types.Uint8:
+					return uint8(v)
+				case types.Uint16:
+					return uint16(v)
+				case types.Uint32:
+					return uint32(v)
+				case types.Uint64:
+					return v
+				}
+			}
+		}
 		return in.toNative(fr, x.v, depth+1)
 	case *Term:
 		if in.path != nil {
